@@ -237,6 +237,45 @@ def run_cases(ctx, specs):
     return len(specs), nt
 
 
+def independence_cases():
+    """`independent draws`: a library of identical rows, all accepted, evaluated through the cache file in more batches than the pool
+    has workers, n_linear_samples draws each.  The standardised draws of different rows share (a, A), so two rows -- of one batch or
+    of different batches -- that repeat each other's values cannot be independent draws from N(a, A)."""
+    import astropy.units as u
+    import sampling as S
+    from c02 import real_data, real_prior
+    from thejoker.samples import JokerSamples
+    from thejoker.thejoker import TheJoker
+
+    out = []
+    for n_batches in (4, 3):
+        case = dict(family="independence", n_batches=n_batches)
+        lib = JokerSamples()
+        n = 12
+        lib["P"] = np.full(n, 3.4375) * u.day
+        lib["e"] = np.full(n, 0.125) * u.one
+        lib["omega"] = np.full(n, 1.5) * u.rad
+        lib["M0"] = np.full(n, 0.75) * u.rad
+        lib["s"] = np.zeros(n) * u.km / u.s
+        with warnings.catch_warnings():
+            warnings.simplefilter("ignore")
+            try:
+                joker = TheJoker(real_prior(), rng=np.random.default_rng(5))
+                res = joker.rejection_sample(real_data(), lib, in_memory=False, n_batches=n_batches, n_linear_samples=3)
+            except Exception as e:
+                out.append((case, f"raised {type(e).__name__}: {str(e)[:200]}"))
+                continue
+        Kv = np.asarray(res["K"].to_value(u.km / u.s), float)
+        if len(Kv) != 3 * n:
+            out.append((case, f"{len(Kv)} rows returned for {n} identical (all accepted) library rows with 3 linear draws each"))
+            continue
+        nd = len(set(Kv.tolist()))
+        if nd != len(Kv):
+            out.append((case, f"{n} identical library rows in {n_batches} batches (serial pool), 3 linear draws each: only {nd} distinct K values among "
+                        f"{len(Kv)} draws -- draws repeat across rows, they are not independent draws from N(a, A)"))
+    return out
+
+
 def run(ctx):
     ok = kernel_setup(ctx)
     if ok:
@@ -262,12 +301,15 @@ def run(ctx):
             if errs:
                 ctx.fail("predicate", SIG, errs[0], case=spec)
                 break
+    for case, msg in independence_cases():
+        ctx.fail("predicate", "C03:independence", msg, case=case)
+    n_eval += 2
     ctx.coverage.update(evaluations=n_eval, distinct_nontrivial=nt)
     return ctx.finish(
         rule="random problems as for C01 (1..7 epochs, 12 thorough; poly_trend 1..3; 0..2 offsets; default or custom K prior; non-zero means; jitter "
         "in {0, small, comparable, large}; units varied) with n_linear_samples 1..4, weak (errors x64), normal and strong (errors /16) data, tiny "
         "periods so that the K-variance cap is active (count in coverage.distribution.cap_active, decided by Coq), plus 0..2 further nonlinear "
-        "rows for the layout; non-trivial = a case whose (mean, cov) were recorded and compared",
+        "rows for the layout; two libraries of 12 identical rows through the cache file in 4 and 3 batches on the serial pool (no linear draw repeats another); non-trivial = a case whose (mean, cov) were recorded and compared",
         assumptions=["numpy's Generator.multivariate_normal draws from the N(mean, cov) it is handed (the distribution of the draws is not verified)",
                      "IEEE rounding / LAPACK outside the model: mean and covariance compared to 1e-4 posterior standard deviations",
                      "the recording Generator subclass is what the implementation receives as `rng` on the in-memory path; on the file path the "
@@ -279,7 +321,7 @@ def run(ctx):
 def replay(ctx, path):
     payload = json.load(open(path))
     spec = payload.get("case")
-    if spec is None:
+    if spec is None or spec.get("family") == "independence":
         return run(ctx)
     ok = kernel_setup(ctx)
     if ok:
